@@ -180,6 +180,25 @@ func checkC01(c *ctx) {
 			c.Count("interleaved_lookup_rounds")
 		}
 	}
+	// one document with 65535 / 65536 / 65540 occurrences of a term (a 16-bit count would wrap),
+	// followed by documents with a few occurrences of the same term
+	for _, nocc := range []int{65535, 65536, 65540} {
+		mk := func(id string, n int) zh.Doc {
+			t := zh.Tok{Term: "rep", Freq: uint64(n)}
+			for q := 0; q < n; q++ {
+				t.Locs = append(t.Locs, zh.Loc{Pos: uint64(q % 1000), Start: uint64(q % 7), End: uint64(q%7 + 1)})
+			}
+			return zh.Doc{Fields: []zh.Field{zh.IDField(id), {Name: "body", Len: uint64(n), TV: true, Toks: []zh.Tok{t}}}}
+		}
+		b := zh.Batch{mk("o0", 2), mk("o1", nocc), mk("o2", 3), mk("o3", 1)}
+		_, obs, spec, err := buildObs(c, b, 1026)
+		c.Case(fmt.Sprintf("occurrences-%d", nocc), true)
+		c.Count("many_occurrence_batches")
+		if err != nil || len(partsDiffer(obs, spec, parts)) > 0 {
+			c.Violation(fmt.Sprintf("C01 batch of 4 documents in which one document has %d occurrences (locations) of the term \"rep\": built segment differs from the specification (err %v)\n%s", nocc, err, clip(describeDiff(obs, spec, parts))), false)
+			return
+		}
+	}
 	// boundary batches: exact cardinalities around multiples of 1024
 	type bb struct {
 		nd    int
